@@ -541,6 +541,16 @@ def import_position(repo: Repo, rep):
                     rep.ok("R-IMPORT-POSITION", f, c, "every module-level statement is looked at (any() over the body)")
     rep.floor("R-IMPORT-POSITION", "import scans that answer True", n, 1)
     f = repo.func("_find_external.py::ensure_import")
+    # (3) the header the import is put behind starts with the module docstring: the loop over the leading statements recognises a
+    # string-constant expression statement and does not stop at it (an import in front of the docstring makes a following
+    # `from __future__ import ...` a SyntaxError - the edit is applied after the ast.parse check)
+    hdr = [lp for lp in body_nodes(f.node) if isinstance(lp, ast.For) and isinstance(lp.iter, ast.Attribute) and lp.iter.attr == "body" and any(isinstance(x, ast.Break) for x in ast.walk(lp))]
+    if hdr:
+        doc_ifs = [t for t in ast.walk(hdr[0]) if isinstance(t, ast.If) and "ast.Expr" in norm(t.test) and ("ast.Constant" in norm(t.test) or "ast.Str" in norm(t.test))]
+        if doc_ifs and not any(isinstance(y, (ast.Break, ast.Return)) for t in doc_ifs for s_ in t.body for y in ast.walk(s_)):
+            rep.ok("R-IMPORT-POSITION", f, hdr[0], "a leading docstring belongs to the header")
+        else:
+            rep.violation("R-IMPORT-POSITION", f, hdr[0], "ensure_import stops its search for the end of the header at a module docstring: the new import is inserted in front of it - the docstring is none any more and a following `from __future__ import ...` makes the rewritten file a SyntaxError", construct="ensure_import:docstring")
     cfg = cfg_of(f)
     ends = [(n_, c) for n_ in cfg.live for c in node_calls(n_) if norm(c.func) == "end_of" and c.args and isinstance(c.args[0], ast.Name)]
     rep.floor("R-IMPORT-POSITION", "end_of(<token>) positions in ensure_import", len(ends), 1)
